@@ -240,10 +240,11 @@ func (b *BaseStore) InitBaseStore(ipfs coreiface.CoreAPI, identity *identityprov
 	b.index = options.Index(b.Identity().PublicKey)
 	b.muIndex.Unlock()
 
+	// the replicator gets a bus of its own: the store's bus is shared by all the stores of
+	// an OrbitDB instance, and load events must only reach the main loop of this store
 	b.replicator, err = replicator.NewReplicator(b, options.ReplicationConcurrency, &replicator.Options{
-		Logger:   b.logger,
-		EventBus: b.eventBus,
-		Tracer:   b.tracer,
+		Logger: b.logger,
+		Tracer: b.tracer,
 	})
 	if err != nil {
 		return fmt.Errorf("unable to init error: %w", err)
@@ -1097,6 +1098,13 @@ func (b *BaseStore) storeListener(topic iface.PubSubTopic) error {
 			}
 
 			evt := e.(stores.EventWrite)
+
+			// the bus is shared by all the stores of an OrbitDB instance: only
+			// announce the writes of this store on its topic
+			if evt.Address == nil || evt.Address.String() != b.Address().String() {
+				continue
+			}
+
 			go func() {
 				// @TODO(gfanton): HandleEventWrite trigger a
 				// publish that is a blocking call if no peers
